@@ -15,7 +15,7 @@ import (
 	"testing"
 	"time"
 
-	"github.com/AdguardTeam/AdGuardHome/internal/aghtest"
+	"github.com/AdguardTeam/AdGuardHome/internal/filtering"
 	"github.com/AdguardTeam/AdGuardHome/internal/querylog"
 	"github.com/AdguardTeam/AdGuardHome/internal/verifkit"
 	"github.com/AdguardTeam/dnsproxy/proxy"
@@ -58,6 +58,7 @@ func (l *c16QLog) get(name string) (es []c16LogEntry) {
 
 // c16Req is one real request of the hand-off monitor.
 type c16Req struct {
+	Setup string `json:"server_setup"`
 	Seq   int    `json:"seq"`
 	Round int    `json:"round"`
 	Phase string `json:"phase"`
@@ -139,12 +140,10 @@ func (env *c16HandoffEnv) send(r *c16Req) (rcode int, err error) {
 	return -1, fmt.Errorf("unknown proto %q", r.Proto)
 }
 
-// c16StartRealServer starts a server with real UDP, TCP and DoT (and, if
-// asked, DoQ) listeners on fixed free loopback ports, a local upstream, a
-// recording query log, and the web-server side of DoH.  s is nil if that
-// failed (the report is made inconclusive then).
-func c16StartRealServer(t *testing.T, rep *verifkit.Report, withQUIC bool) (s *Server, qlog *c16QLog, doh *httptest.Server) {
-	ups := aghtest.StartLocalhostUpstream(t, dns.HandlerFunc(func(w dns.ResponseWriter, req *dns.Msg) {
+// c16StartUpstream starts a local TCP upstream that answers every A question
+// and returns its address as an upstream URL ("" if no port could be bound).
+func c16StartUpstream(t *testing.T) (addr string) {
+	h := dns.HandlerFunc(func(w dns.ResponseWriter, req *dns.Msg) {
 		resp := (&dns.Msg{}).SetReply(req)
 		if len(req.Question) == 1 && req.Question[0].Qtype == dns.TypeA {
 			resp.Answer = []dns.RR{&dns.A{
@@ -153,19 +152,104 @@ func c16StartRealServer(t *testing.T, rep *verifkit.Report, withQUIC bool) (s *S
 			}}
 		}
 		_ = w.WriteMsg(resp)
-	})).String()
+	})
+	for try := 0; try < 8; try++ {
+		a := fmt.Sprintf("127.0.0.1:%d", verifkit.FreePort())
+		ln, err := net.Listen("tcp4", a)
+		if err != nil {
+			continue
+		}
+		srv := &dns.Server{Listener: ln, Handler: h}
+		go func() { _ = srv.ActivateAndServe() }()
+		t.Cleanup(func() { _ = srv.Shutdown() })
+
+		return "tcp://" + a
+	}
+
+	return ""
+}
+
+// c16HTTPServer starts an httptest server (TLS if cert is given) on a fixed
+// free loopback port; nil if none could be bound.
+func c16HTTPServer(h http.Handler, cert *tls.Certificate) (srv *httptest.Server) {
+	for try := 0; try < 8; try++ {
+		ln, err := net.Listen("tcp4", fmt.Sprintf("127.0.0.1:%d", verifkit.FreePort()))
+		if err != nil {
+			continue
+		}
+		srv = &httptest.Server{Listener: ln, Config: &http.Server{Handler: h}}
+		if cert != nil {
+			srv.TLS = &tls.Config{Certificates: []tls.Certificate{*cert}}
+			srv.StartTLS()
+		} else {
+			srv.Start()
+		}
+
+		return srv
+	}
+
+	return nil
+}
+
+// The set-ups of the real servers.
+const (
+	// DoT listener, DoH through the web server over TLS.
+	c16SetupDoT = "dot+doh"
+	// The same plus a DoQ listener.
+	c16SetupDoTDoQ = "dot+doq+doh"
+	// A certificate but neither a DoT nor a DoQ address: DoH only.
+	c16SetupDoHCert = "doh-only-with-certificate"
+	// No certificate: DoH arrives as plain HTTP (allow_unencrypted_doh).
+	c16SetupDoHPlain = "doh-only-plain-http"
+)
+
+// c16StartRealServer starts a server with real UDP and TCP listeners and,
+// depending on the set-up, DoT and DoQ listeners on fixed free loopback ports, a local upstream, a
+// recording query log, and the web-server side of DoH.  s is nil if that
+// failed (the report is made inconclusive then).
+func c16StartRealServer(t *testing.T, rep *verifkit.Report, setup string) (s *Server, qlog *c16QLog, doh *httptest.Server) {
+	ups := c16StartUpstream(t)
+	if ups == "" {
+		rep.Inconcl("cannot start the local upstream")
+
+		return nil, nil, nil
+	}
 
 	// Fixed free ports, never port 0: dnsproxy sets SO_REUSEPORT.
 	lo := net.IP{127, 0, 0, 1}
-	s, _ = createTestTLS(t, &TLSConfig{
-		TLSListenAddrs: []*net.TCPAddr{{IP: lo, Port: verifkit.FreePort()}},
-		ServerName:     tlsServerName,
-	})
+	withDoT := setup == c16SetupDoT || setup == c16SetupDoTDoQ
+	if setup == c16SetupDoHPlain {
+		// No certificate at all: DoH arrives as plain HTTP (reverse proxy in
+		// front), allow_unencrypted_doh is on.
+		s = createTestServer(t, &filtering.Config{
+			BlockingMode: filtering.BlockingModeDefault,
+		}, ServerConfig{
+			UDPListenAddrs: []*net.UDPAddr{{IP: lo, Port: verifkit.FreePort()}},
+			TCPListenAddrs: []*net.TCPAddr{{IP: lo, Port: verifkit.FreePort()}},
+			TLSConf:        &TLSConfig{ServerName: tlsServerName},
+			Config: Config{
+				UpstreamMode:     UpstreamModeLoadBalance,
+				EDNSClientSubnet: &EDNSClientSubnet{Enabled: false},
+				ClientsContainer: EmptyClientsContainer{},
+			},
+			ServePlainDNS:          true,
+			TLSAllowUnencryptedDoH: true,
+		})
+	} else {
+		// With a certificate; the DoT/DoQ addresses are set below.
+		s, _ = createTestTLS(t, &TLSConfig{
+			TLSListenAddrs: []*net.TCPAddr{{IP: lo, Port: verifkit.FreePort()}},
+			ServerName:     tlsServerName,
+		})
+	}
 	qlog = &c16QLog{byName: map[string][]c16LogEntry{}}
 	for try := 0; ; try++ {
 		plain := verifkit.FreePort()
-		s.conf.TLSConf.TLSListenAddrs = []*net.TCPAddr{{IP: lo, Port: verifkit.FreePort()}}
-		if withQUIC {
+		s.conf.TLSConf.TLSListenAddrs, s.conf.TLSConf.QUICListenAddrs = nil, nil
+		if withDoT {
+			s.conf.TLSConf.TLSListenAddrs = []*net.TCPAddr{{IP: lo, Port: verifkit.FreePort()}}
+		}
+		if setup == c16SetupDoTDoQ {
 			s.conf.TLSConf.QUICListenAddrs = []*net.UDPAddr{{IP: lo, Port: verifkit.FreePort()}}
 		}
 		s.conf.UDPListenAddrs = []*net.UDPAddr{{IP: lo, Port: plain}}
@@ -190,9 +274,17 @@ func c16StartRealServer(t *testing.T, rep *verifkit.Report, withQUIC bool) (s *S
 	}
 	t.Cleanup(func() { _ = s.Stop() })
 
-	doh = httptest.NewUnstartedServer(http.HandlerFunc(s.ServeHTTP))
-	doh.TLS = &tls.Config{Certificates: []tls.Certificate{*s.conf.TLSConf.Cert}}
-	doh.StartTLS()
+	// The web-server side of DoH: the two patterns AdGuard Home registers,
+	// served by the registered handler.
+	mux := http.NewServeMux()
+	mux.HandleFunc("/dns-query", s.handleDoH)
+	mux.HandleFunc("/dns-query/", s.handleDoH)
+	doh = c16HTTPServer(mux, s.conf.TLSConf.Cert)
+	if doh == nil {
+		rep.Inconcl("cannot start the web-server side of DoH")
+
+		return nil, nil, nil
+	}
 	t.Cleanup(doh.Close)
 
 	return s, qlog, doh
@@ -209,16 +301,51 @@ func TestVerifC16Handoff(t *testing.T) {
 			"the ClientID attached at the processing stage is read from the query-log record of the request's unique question; "+
 			"non-trivial = a request without ClientID sent after a reconfiguration that followed id-carrying requests, or an id-carrying request; distinct by (round, phase, protocol, server name, path)")
 	defer func() {
+		if t.Failed() {
+			// An assertion of a product test helper ended the function.
+			rep.Inconcl("the test function was ended by a failed helper assertion (see the log)")
+		}
 		if err := rep.Write(); err != nil {
 			t.Fatal(err)
 		}
 	}()
-	rng := rep.Rand("handoff")
-
-	s, qlog, doh := c16StartRealServer(t, rep, false)
-	if s == nil {
-		return
+	// DoH-only set-ups are ordinary ones (AdGuard Home behind a reverse proxy,
+	// or encryption settings without a DoT port): the history runs in each.
+	total := 0
+	for _, setup := range []string{c16SetupDoT, c16SetupDoHCert, c16SetupDoHPlain} {
+		rounds := verifkit.Pick(2, 6)
+		total += rounds
+		if !c16HandoffHistory(t, rep, setup, rounds) {
+			return
+		}
 	}
+	nID := verifkit.Pick(24, 60)
+	nPlain := verifkit.Pick(40, 100)
+	if rep.Events["id_carrying_requests_logged"] < total*nID*9/10 {
+		rep.Inconcl(fmt.Sprintf("only %d id-carrying requests reached the query log", rep.Events["id_carrying_requests_logged"]))
+	}
+	if rep.Events["requests_without_id_logged:after-reconfigure"] < total*nPlain*9/10 {
+		rep.Inconcl(fmt.Sprintf("only %d requests without id were logged after a reconfiguration",
+			rep.Events["requests_without_id_logged:after-reconfigure"]))
+	}
+}
+
+// c16HandoffHistory plays rounds of id-carrying requests, Reconfigure and
+// requests without id against one running server of the given set-up.
+func c16HandoffHistory(t *testing.T, rep *verifkit.Report, setup string, rounds int) (ok bool) {
+	rng := rep.Rand("handoff/" + setup)
+	withDoT := setup == c16SetupDoT
+	reconfigurations := 0
+
+	s, qlog, doh := c16StartRealServer(t, rep, setup)
+	if s == nil {
+		return false
+	}
+	defer func() {
+		_ = s.Stop()
+		doh.Close()
+	}()
+	rep.Class("handoff_setup:" + setup)
 
 	env := &c16HandoffEnv{s: s, doh: doh}
 	env.dohCli = func(sni string) *http.Client {
@@ -231,7 +358,6 @@ func TestVerifC16Handoff(t *testing.T) {
 		}
 	}
 
-	rounds := verifkit.Pick(3, 12)
 	nID := verifkit.Pick(24, 60)
 	nPlain := verifkit.Pick(40, 100)
 	seq := 0
@@ -240,7 +366,8 @@ func TestVerifC16Handoff(t *testing.T) {
 	run := func(r *c16Req) {
 		seq++
 		r.Seq = seq
-		r.QName = fmt.Sprintf("q%d-r%d.c16-handoff.example.", seq, r.Round)
+		r.Setup = setup
+		r.QName = fmt.Sprintf("q%d-r%d-%s.c16-handoff.example.", seq, r.Round, strings.ReplaceAll(setup, "+", "-"))
 		rcode, err := env.send(r)
 		if err != nil {
 			rep.Event("requests_without_reply")
@@ -250,7 +377,7 @@ func TestVerifC16Handoff(t *testing.T) {
 		}
 		es := qlog.get(r.QName)
 		nontrivial := r.Want != "" || (r.Phase == "after-reconfigure" && len(idsSeen) > 0)
-		rep.Eval(nontrivial, fmt.Sprintf("%d|%s|%s|%s|%s", r.Round, r.Phase, r.Proto, r.SNI, r.Path))
+		rep.Eval(nontrivial, fmt.Sprintf("%s|%d|%s|%s|%s|%s", setup, r.Round, r.Phase, r.Proto, r.SNI, r.Path))
 		rep.Class("handoff:" + r.Proto + ":" + r.Phase)
 		if rcode != dns.RcodeSuccess || len(es) != 1 {
 			rep.Event("requests_not_processed_once")
@@ -272,14 +399,15 @@ func TestVerifC16Handoff(t *testing.T) {
 		}
 		w := map[string]any{"request": r, "query_log_record": es[0], "expected_client_id": r.Want,
 			"history": fmt.Sprintf("round %d; ids carried by earlier requests: %d distinct; reconfigurations so far: %d",
-				r.Round, len(idsSeen), rep.Events["reconfigurations"])}
+				r.Round, len(idsSeen), reconfigurations),
+			"server_setup": setup}
 		if o := idOwner[got]; o != nil {
 			w["earlier_request_that_carried_this_id"] = o
 			w["how_to_reproduce"] = fmt.Sprintf("start the server; send request seq %d (below) and the other id-carrying requests before it in order, "+
 				"so that it is the proxy's request number N; call Server.Reconfigure(nil); send plain requests: the N-th of them is logged with that ClientID", o.Seq)
 		}
 		hist := "without-reconfiguration"
-		if rep.Events["reconfigurations"] > 0 {
+		if reconfigurations > 0 {
 			hist = "after-a-reconfiguration"
 		}
 		switch {
@@ -305,7 +433,11 @@ func TestVerifC16Handoff(t *testing.T) {
 		for i := 0; i < nID; i++ {
 			id := fmt.Sprintf("cli-%d-%s", round, c16RandValid(rng, 1+rng.Intn(6), true))
 			r := &c16Req{Round: round, Phase: "steady", Want: c16Lower(id)}
-			switch rng.Intn(4) {
+			k := rng.Intn(4)
+			if !withDoT && k < 2 {
+				k += 2
+			}
+			switch k {
 			case 0, 1:
 				r.Proto, r.SNI = "tls", id+"."+tlsServerName
 			case 2:
@@ -325,9 +457,11 @@ func TestVerifC16Handoff(t *testing.T) {
 		if err := s.Reconfigure(nil); err != nil {
 			rep.Inconcl("reconfigure failed: " + err.Error())
 
-			return
+			return false
 		}
+		reconfigurations++
 		rep.Event("reconfigurations")
+		rep.Event("reconfigurations:" + setup)
 
 		// Phase B: requests without ids.
 		for i := 0; i < nPlain; i++ {
@@ -339,6 +473,9 @@ func TestVerifC16Handoff(t *testing.T) {
 				r.Proto = "tcp"
 			case 4:
 				r.Proto, r.SNI = "tls", tlsServerName
+				if !withDoT {
+					r.Proto, r.SNI = "udp", ""
+				}
 			default:
 				r.Proto, r.SNI, r.Path = "https", tlsServerName, "/dns-query"
 			}
@@ -346,11 +483,5 @@ func TestVerifC16Handoff(t *testing.T) {
 		}
 	}
 
-	if rep.Events["id_carrying_requests_logged"] < rounds*nID*9/10 {
-		rep.Inconcl(fmt.Sprintf("only %d id-carrying requests reached the query log", rep.Events["id_carrying_requests_logged"]))
-	}
-	if rep.Events["requests_without_id_logged:after-reconfigure"] < rounds*nPlain*9/10 {
-		rep.Inconcl(fmt.Sprintf("only %d requests without id were logged after a reconfiguration",
-			rep.Events["requests_without_id_logged:after-reconfigure"]))
-	}
+	return true
 }
